@@ -181,18 +181,19 @@ def classify(ctx, path, fams, name, pairs=True):
     def hids(us):
         return sorted({u[1] for u in us})
 
-    fmap = dict(fams)
-    ids = sorted(fmap)
-    tries = [frozenset([f]) for f in ids]
-    if len(ids) > 1 and (pairs or len(ids) == 2):
-        tries += [frozenset(p) for p in itertools.combinations(ids, 2)]
-    if len(ids) > 2:
+    # a finding may be listed with several alternative switch sets (tried in order)
+    ids = list(range(len(fams)))
+    tries = [frozenset([i]) for i in ids]
+    distinct = sorted({f for f, _ in fams})
+    if len(distinct) > 1 and (pairs or len(distinct) == 2):
+        tries += [frozenset(p) for p in itertools.combinations(ids, 2) if fams[p[0]][0] != fams[p[1]][0]]
+    if len(distinct) > 2:
         tries.append(frozenset(ids))
     for k, fset in enumerate(tries):
         todo = pending()
         if not todo:
             break
-        dev = sorted({d for f in fset for d in fmap[f]})
+        dev = sorted({d for i in fset for d in fams[i][1]})
         sub = {h: blocks[h] for h in hids(todo)}
         sp = os.path.join(ctx.work, "%s-rej-%d.ndjson" % (name, k))
         write_blocks(sp, sub)
@@ -201,7 +202,7 @@ def classify(ctx, path, fams, name, pairs=True):
         for u in todo:
             # a cut is only explained if the main line of its history is explained by the same spec
             if u in ok2 and (u[0] == "h" or ("h", u[1]) in ok2 or res[("h", u[1])] == "strict"):
-                res[u] = fset
+                res[u] = frozenset(fams[i][0] for i in fset)
         os.remove(sp)
     return res, blocks, stats
 
